@@ -1,0 +1,5 @@
+// +build !verif
+
+package stackinit
+
+func verifSkipInit() bool { return false }
